@@ -11,7 +11,8 @@ Inductive uq :=
 | QProg (k : sel) (cs : list N)  (* an Aelys program observing the string utf8 cs; k = loop opcode selected *)
 | QNat (cs ps : list N)          (* an Aelys program calling the character natives on utf8 cs, pad string utf8 ps *)
 | QRecycle (cs : list N)
-| QFirst (cs : list N).         (* functions whose for-each / range loop body ends in `return`, on utf8 cs and on the empty string *)       (* char_len / for-each / indexing observed three times with other one-character strings produced (and collected) in between *)
+| QFirst (cs : list N)
+| QBody (cs ds pv : list N).    (* for-each bodies with continue / break / nesting / closure / early return / locals, over utf8 cs, inner string utf8 ds, pivot character *)         (* functions whose for-each / range loop body ends in `return`, on utf8 cs and on the empty string *)       (* char_len / for-each / indexing observed three times with other one-character strings produced (and collected) in between *)
 
 Definition zn (n : nat) : Z := Z.of_nat n.
 Definition zs (l : list N) : list Z := map Z.of_N l.
@@ -114,6 +115,25 @@ Definition first_obs (cs : list N) : list Z :=
   framed first ++ framed ifirst ++ framed none_marker
   ++ [(if Nat.eqb (length (items (for_each s))) 0 then 1 else 0); 1; zn (length (items (for_each s))); 0].
 
+(* loop bodies that are not straight-line code: what each must compute from the items of the iteration *)
+Fixpoint evens {A} (l : list A) : list A := match l with [] => [] | x :: r => x :: match r with [] => [] | _ :: r' => evens r' end end.
+Fixpoint take_until (p : N) (l : list N) : list N := match l with [] => [] | x :: r => if N.eqb x p then [] else x :: take_until p r end.
+Fixpoint index_of (p : N) (l : list N) (i : Z) : Z := match l with [] => (-1)%Z | x :: r => if N.eqb x p then i else index_of p r (i + 1)%Z end.
+Definition count_if {A} (f : A -> bool) (l : list A) : Z := zn (length (filter f l)).
+Definition body_obs (cs ds pvl : list N) : list Z :=
+  let cc := chars (utf8 cs) in
+  let dd := chars (utf8 ds) in
+  let p := match pvl with x :: _ => x | [] => 0%N end in
+  let narrow := filter (fun a => Nat.leb (len_utf8 a) 2) cc in
+  [zn (length cc); count_if (fun c => negb (Nat.eqb (len_utf8 c) 1)) cc;
+   zn (length cc)] ++ framed (utf8 (evens cc))
+  ++ [zn (length cc); count_if (fun c => negb (N.eqb c p)) cc;
+      zn (length (take_until p cc))] ++ framed (utf8 (take_until p cc))
+  ++ [fold_right Z.add 0%Z (map (fun a => count_if (fun b => negb (N.eqb b a)) dd) narrow); zn (length narrow)]
+  ++ framed (utf8 cc)
+  ++ [index_of p cc 0%Z; index_of 0%N cc 0%Z;
+      fold_right Z.add 0%Z (map (fun c => 3 * zn (len_utf8 c))%Z cc); zn (byte_len (utf8 cs))].
+
 Definition uobs (q : uq) : list Z :=
   match q with
   | QEnc c => enc_obs c
@@ -123,4 +143,5 @@ Definition uobs (q : uq) : list Z :=
   | QNat cs ps => nat_obs cs ps
   | QRecycle cs => recycle_obs cs
   | QFirst cs => first_obs cs
+  | QBody cs ds pv => body_obs cs ds pv
   end.
